@@ -253,8 +253,13 @@ def classify_stderr(lane, text):
     return None
 
 
+DBG_NOISE = re.compile(r"^\[/repo/src/bitvector/mod\.rs:\d+:\d+\] (pos|l) = \d+\s*$", re.M)
+
+
 def stderr_excerpt(text, n=1800):
-    text = text.strip()
+    # the library prints a stray dbg! in *_with_pos: not part of any report
+    text = DBG_NOISE.sub("", text)
+    text = re.sub(r"\n{2,}", "\n", text).strip()
     # keep the head of the first sanitizer / Miri / abort report
     for marker in ["error: Undefined Behavior", "ERROR: AddressSanitizer", "WARNING: ThreadSanitizer",
                    "unsafe precondition(s) violated", "Invalid read", "Invalid write", "panicked at"]:
@@ -280,6 +285,12 @@ def run_once(cmd, env, out_path, err_path, timeout):
     return rc, time.time() - t0
 
 
+def reps_for(prop, tier, lane):
+    """how many times the catalogue is replicated with derived seeds (thorough tier only)"""
+    r = plan.PLANS[prop].get("reps", {}).get(tier, {})
+    return int(r.get(lane, r.get("*", 1)))
+
+
 def run_shard(prop, tier, lane, seed, shard, nshards, rundir, timeout, log, max_deaths=25):
     """Runs one shard to completion, restarting after each process death (a death is attributed to
     the journalled case, pinpointed with a --trace re-run, and the shard resumes after that case)."""
@@ -290,7 +301,7 @@ def run_shard(prop, tier, lane, seed, shard, nshards, rundir, timeout, log, max_
     seg = 0
     t0 = time.time()
     base = [prop, "--tier", tier, "--lane", lane, "--scale", L["scale"], "--seed", str(seed),
-            "--shard", f"{shard}/{nshards}"]
+            "--shard", f"{shard}/{nshards}", "--reps", str(reps_for(prop, tier, lane))]
     while True:
         out = os.path.join(rundir, f"{lane}-{shard}-{seg}.jsonl")
         err = os.path.join(rundir, f"{lane}-{shard}-{seg}.err")
@@ -316,7 +327,7 @@ def run_shard(prop, tier, lane, seed, shard, nshards, rundir, timeout, log, max_
         tout = os.path.join(rundir, f"{lane}-{shard}-{seg}.trace.jsonl")
         terr = os.path.join(rundir, f"{lane}-{shard}-{seg}.trace.err")
         tbase = [prop, "--tier", tier, "--lane", lane, "--scale", L["scale"], "--seed", str(seed),
-                 "--shard", f"{shard}/{nshards}", "--only", str(open_case), "--trace"]
+                 "--shard", f"{shard}/{nshards}", "--reps", str(reps_for(prop, tier, lane)), "--only", str(open_case), "--trace"]
         trc, _ = run_once(worker_cmd(lane, tbase), env, tout, terr, timeout)
         tmp = ShardResult()
         _, _, last_op = parse_output(tout, tmp, lane)
@@ -530,7 +541,8 @@ def main_check(prop, tier, only_lanes=None, keep=False):
         h = hashlib.sha1(key.encode()).hexdigest()[:10]
         path = os.path.join(VERIF, "replays", f"{prop}-{h}.json")
         c = v.get("case") or {}
-        rec = dict(property=prop, tier=tier, seed=seed, lane=v.get("lane"), signature=v["sig"],
+        rec = dict(property=prop, tier=tier, seed=seed, lane=v.get("lane"), reps=reps_for(prop, tier, v.get("lane")) if v.get("lane") in LANES else 1,
+                   signature=v["sig"],
                    occurrences=len(vs), case_index=v.get("idx"), case=c, op=v.get("op"), args=v.get("args"),
                    expected=v.get("exp"), observed=v.get("got"), kind=v.get("kind"), notes=v.get("notes"),
                    replay_cmd=f"python3 run/check.py --replay {os.path.relpath(path, VERIF)}")
@@ -618,7 +630,8 @@ def main_replay(path):
         print(out[-3000:])
         return 2
     L = LANES[lane]
-    args = [prop, "--tier", tier, "--lane", lane, "--scale", L["scale"], "--seed", str(seed), "--only", str(idx), "--trace"]
+    args = [prop, "--tier", tier, "--lane", lane, "--scale", L["scale"], "--seed", str(seed), "--reps", str(rec.get("reps", 1)),
+            "--only", str(idx), "--trace"]
     p = subprocess.run(worker_cmd(lane, args), env=lane_env(lane), cwd=HARNESS, stdout=subprocess.PIPE,
                        stderr=subprocess.PIPE, text=True)
     viols = [json.loads(l) for l in p.stdout.splitlines() if l.startswith('{"t":"viol"')]
